@@ -19,7 +19,12 @@ from .tlaparse import find_prints
 
 DIALECTS = ('mindsdb', 'mysql', 'sqlite')
 POOL_SEED = 4101
-EXTRA = ["select `primary_key` from t", "select @`a b`", "select '\\\\'", "select ?", "select a from t where b = ?",
+EXTRA = ["select 0.1234567, 3.141592653589793, 100000000000000000000.5, 0.000000001, 12345678.12345678 from t where a between 0.0000001 and 99.99999999",
+         "select a from t order by b nulls last, c nulls first, d asc nulls last, e desc nulls first",
+         "select sum(a) over (partition by b order by c nulls first, d desc) from t", "select -0.5, - 0.25, -(1.5), 1.0, 1.10, 10.010 from t",
+         "select a from t limit 0", "select a from t limit 0 offset 0", "select a from t where b in (1.5, 2.25, -3.125)",
+         "insert into t (a, b) values (1.23456789012, -0.000001)", "update t set a = 0.30000000000000004 where b = 1e0",
+         "select `primary_key` from t", "select @`a b`", "select '\\\\'", "select ?", "select a from t where b = ?",
          "select \"a.b\" from t", "select `a b`.`c` from `d e`", "select (a + b) * c, a + (b * c), (a), ((a)) from t",
          "select - (a), -(-a), not (not a) from t", "select a from t where (a = 1 or b = 2) and c = 3",
          "select * from (select * from t) as s", "select 'it''s', \"x\", 'a\\'b' from t", "select `order`, `select` from `from`",
